@@ -8,6 +8,7 @@ import (
 	"fmt"
 	"reflect"
 	"strings"
+	"verif/clih"
 
 	"ariga.io/atlas/sql/migrate"
 
@@ -290,7 +291,7 @@ func cases(tier string) []Case {
 }
 
 func Run(r *report.Run) {
-	r.Rule = "files of n<=5 distinct statements x progress k in 1..n-1 x origin of the partial revision {statement k+1 failed; process died before statement k+1 (no error recorded); statement 1 failed, re-run, then died before statement k+1} (revision always produced by real runs) x layout {only file, middle of 3 files} x every single edit (change/insert/delete/swap at every index, truncate to every length; thorough: every pair of edits for n<=4), re-hashed, then ExecuteN on the real Executor; non-trivial = case whose edit changes the statement list; distinct = (n,k,layout,new list)"
+	r.Rule = "files of n<=5 distinct statements x progress k in 1..n-1 x origin of the partial revision {statement k+1 failed; process died before statement k+1 (no error recorded); statement 1 failed, re-run, then died before statement k+1} (revision always produced by real runs) x layout {only file, middle of 3 files} x every single edit (change/insert/delete/swap at every index, truncate to every length; thorough: every pair of edits for n<=4), re-hashed, then ExecuteN on the real Executor; plus a CLI slice on a real SQLite file: n in 2..4 x k x {no / `migrate set` on the partially applied version} x edit {none, repair, tail, prefix, truncate, insert at front} with the partial revision made by the real `migrate apply --tx-mode none`: same rule, read from exit status, output and a journal table, and no panic; non-trivial = case whose edit changes the statement list; distinct = (n,k,layout,new list)"
 	r.Assumptions = []string{
 		"'history untouched' compares Applied, Total, PartialHashes, Error, ErrorStmt, Hash, Type; ExecutedAt/ExecutionTime/OperatorVersion are rewritten by design on every write",
 		"statements are distinct tokens; the recording driver never fails during the second run",
@@ -324,11 +325,13 @@ func Run(r *report.Run) {
 			r.Sample(c)
 		}
 	}
+	ncli := runCLI(r)
+	r.Set("cli_cases", ncli)
 	r.Set("cases_expected_refused", refused)
 	r.Set("cases_expected_resumed", resumed)
-	r.Set("states", len(cs))
-	r.Set("transitions", len(cs)*3)
-	r.Set("traces_validated_against_impl", len(cs))
+	r.Set("states", len(cs)+ncli)
+	r.Set("transitions", len(cs)*3+ncli*3)
+	r.Set("traces_validated_against_impl", len(cs)+ncli)
 }
 
 func Replay(r *report.Run, raw json.RawMessage) {
@@ -337,9 +340,21 @@ func Replay(r *report.Run, raw json.RawMessage) {
 		r.Violate("", "bad replay file: "+err.Error(), nil)
 		return
 	}
-	p, key := eval(v.Case)
 	r.Case("a", true)
 	r.Case("b", true)
+	var cv struct {
+		Case struct {
+			C *CLICase `json:"cli_case"`
+		}
+	}
+	if json.Unmarshal(raw, &cv) == nil && cv.Case.C != nil {
+		defer clih.Cleanup()
+		if p := evalCLI(*cv.Case.C); len(p) > 0 {
+			r.Violate("", strings.Join(p, " | "), map[string]any{"cli_case": cv.Case.C})
+		}
+		return
+	}
+	p, key := eval(v.Case)
 	if len(p) > 0 {
 		r.Violate(key, strings.Join(p, " | "), v.Case)
 	}
